@@ -144,8 +144,10 @@ def run(chk, repo, tier):
     _, pe, _ = analyse(repo, fe)
     oke = False
     for p in returns(pe):
-        wh = [a for a in nf.value_atoms(p.ret) if is_app(a, 'where')]
-        oke = bool(wh) and all(any(is_app(x, 'lt') and x[2][0] == S('tol') for x in nf.value_atoms(Poly.atom(a))) for a in wh)
+        # the selection the end indices are taken from: every comparison against tol is `tol < value/peak`
+        sel = [a for a in nf.value_atoms(p.ret) if is_app(a, ('nonzero', 'where', 'argwhere'))]
+        cmps = [x for x in nf.value_atoms(p.ret) if is_app(x, ('lt', 'le', 'eq', 'ne')) and ('sym', 'tol') in nf.value_atoms(Poly.atom(x))]
+        oke = bool(sel) and bool(cmps) and all(x[1] == 'lt' and x[2][0] == S('tol') for x in cmps)
     chk.ob('C15-d', 'T-comparison', fe.key, 'samples strictly above the relative tolerance', oke, '', fe.loc())
 
     # append
@@ -233,53 +235,38 @@ def run(chk, repo, tier):
             raise AnalysisError(f'Spectrum.bin({method}): no returning path')
         okq = okl = okp = True
         n = 0
+        und = []
+        J = Poly.atom(('iter', 'bin-index'))
         for p in rets:
-            lps = [lp for lp in p.state.loops if lp['func'] == fb.key]
-            if len(lps) != 1:
-                okq = False
-                continue
-            lp = lps[0]
-            n += 1
-            it = lp['iter'].single_atom() if isinstance(lp['iter'], Poly) else None
-            ends = lp['ends']
-            phi = lp['phi'].get('bins')
             smp = [e for e in p.calls(f'{SPEC}.sample')]
-            if len(ends) != 1 or phi is None or len(smp) != 1:
-                okq = False
+            if len(smp) != 1:
+                und.append('the sampled edges are not a single sample() call')
                 continue
-            end = ends[0].get('bins')
-            ea = end.single_atom() if isinstance(end, Poly) else None
-            if ea is None or not is_app(ea, 'append') or ea[2][0] != phi:
-                okq = False
+            fx, xx = smp[0].result, smp[0].bound.get('wave')
+            form = bins_form(p, fb, J)
+            if form is None:
+                und.append('bins are neither built by an append loop nor by a comprehension over the edges')
                 continue
-            term = ea[2][1]
-            k = [a for a in nf.value_atoms(term) if a[0] == 'iter']
-            if not k:
-                okq = False
-                continue
-            kk = Poly.atom(k[0])
-            fx = smp[0].result
-            xx = smp[0].bound.get('wave')
+            B, term, count_ok = form
+            n += 1
             F = lambda i: nf.index(fx, i)
             X = lambda i: nf.index(xx, i)
             if method == 'trapz':
-                want = Poly.const(1) / 2 * (F(kk - 1) + F(kk)) * (X(kk) - X(kk - 1))
-                want_iter = ('range', (C(1), nf.attr(fx, 'size')))
+                want = Poly.const(1) / 2 * (F(J) + F(J + 1)) * (X(J + 1) - X(J))
             else:
-                want = (X(kk + 1) - X(kk - 1)) / 6 * (F(kk - 1) + 4 * F(kk) + F(kk + 1))
-                want_iter = ('range', (C(1), nf.attr(xx, 'size'), C(2)))
+                want = (X(2 * J + 2) - X(2 * J)) / 6 * (F(2 * J) + 4 * F(2 * J + 1) + F(2 * J + 2))
             okq = okq and term == want
-            okl = okl and it is not None and is_app(it, 'range') and tuple(it[2]) == want_iter[1]
+            okl = okl and count_ok(method, fx, xx)
             # power preservation: bins * integrate(min, max)/sum(bins)
             ig = p.calls(f'{SPEC}.integrate')
-            out = Poly.atom(('loop', phi.single_atom()[1], 'out'))
-            okp = okp and len(ig) == 1 and p.ret == out * ig[0].result / nf.app('sum', out) and \
+            okp = okp and len(ig) == 1 and p.ret == B * ig[0].result / nf.app('sum', B) and \
                 ig[0].bound.get('method') == Const(method)
-        chk.ob('C15-f', 'N-formula', fb.key, f'{label} term over consecutive edges', okq and n > 0, '', fb.loc())
+        tri = lambda ok: (ok and n > 0) if (not und or not ok) else None
+        chk.ob('C15-f', 'N-formula', fb.key, f'{label} term over consecutive edges', tri(okq), '; '.join(und), fb.loc())
         chk.ob('C15-f', 'N-formula', fb.key, f'{label} loop visits every bin once (stride {"1" if method == "trapz" else "2"})',
-               okl and n > 0, '', fb.loc())
+               tri(okl), '; '.join(und), fb.loc())
         chk.ob('C15-e', 'N-identity', fb.key, f'power preservation rescales all bins by integrate(min, max)/sum(bins) [{label}]',
-               okp and n > 0, '', fb.loc())
+               tri(okp), '; '.join(und), fb.loc())
     # bin edges: midpoints between centres; end treatment symmetric (half a step outwards) or inside (the end centres)
     wv = S('wave')
     dx = nf.app('diff', wv) / 2
@@ -301,9 +288,83 @@ def run(chk, repo, tier):
         chk.ob('C15-f', 'N-formula', fb.key, f'trapezoid bin edges are the midpoints, ends={label}', oke, det, fb.loc())
     _, pb, _ = analyse(repo, fb, config={'interp_method': Const('trapz'), 'preserve_power': FALSE,
                                          'waveunit': nf.attr(SELF, 'waveunit')})
-    okn = all(isinstance(p.ret, Poly) and p.ret.single_atom() is not None and p.ret.single_atom()[0] == 'loop'
-              for p in returns(pb)) and bool(returns(pb))
-    chk.ob('C15-e', 'N-identity', fb.key, 'without power preservation the quadrature values are returned as they are', okn, '', fb.loc())
+    okn, undn = bool(returns(pb)), False
+    for p in returns(pb):
+        form = bins_form(p, fb, Poly.atom(('iter', 'bin-index')))
+        if form is None:
+            undn = True
+        else:
+            okn = okn and p.ret == form[0]
+    chk.ob('C15-e', 'N-identity', fb.key, 'without power preservation the quadrature values are returned as they are',
+           okn if (not undn or not okn) else None, 'bins construction not recognised' if undn else '', fb.loc())
+
+
+def bins_form(p, fb, J):
+    """How Spectrum.bin builds its bins on path p: -> (bins value B, the j-th bin as a term in the
+    counter J (0-based), count_ok(method, f, x) -> bool) or None when the construction is not one of
+      * ``for k in range(1, n[, s]): bins = np.append(bins, term(k))``
+      * ``np.array([term for ... in zip(edge / sample slices)])``."""
+    lps = [lp for lp in p.state.loops if lp['func'] == fb.key and 'bins' in lp['phi']]
+    if len(lps) == 1:
+        lp = lps[0]
+        it = lp['iter'].single_atom() if isinstance(lp['iter'], Poly) else None
+        phi = lp['phi']['bins']
+        if len(lp['ends']) != 1 or it is None or not is_app(it, 'range'):
+            return None
+        end = lp['ends'][0].get('bins')
+        ea = end.single_atom() if isinstance(end, Poly) else None
+        if ea is None or not is_app(ea, 'append') or ea[2][0] != phi:
+            return None
+        term = ea[2][1]
+        ks = [a for a in nf.value_atoms(term) if a[0] == 'iter']
+        rng = tuple(it[2])
+        if not ks or len(rng) not in (2, 3) or rng[0].const_value() is None:
+            return None
+        step = rng[2] if len(rng) == 3 else Poly.const(1)
+        term_j = nf.subst_value(term, {ks[0]: rng[0] + step * J})
+        out = Poly.atom(('loop', phi.single_atom()[1], 'out'))
+
+        def count_ok(method, f, x):
+            if method == 'trapz':
+                return rng[0] == C(1) and rng[1] in (nf.attr(f, 'size'), nf.attr(x, 'size')) and step == C(1)
+            return rng[0] == C(1) and rng[1] in (nf.attr(f, 'size'), nf.attr(x, 'size')) and step == C(2)
+        return out, term_j, count_ok
+    for a in nf.value_atoms(p.ret):
+        if is_app(a, ('listcomp', 'genexp')) and len(a[2]) == 2:
+            body, src = a[2]
+            za = src.single_atom() if isinstance(src, Poly) else None
+            its = [b for b in nf.value_atoms(body) if b[0] == 'iter']
+            if za is None or not is_app(za, 'zip') or len(set(its)) != 1:
+                continue
+            term_j = nf.subst_value(body, {its[0]: J})
+            B = Poly.atom(a)
+            for w in nf.value_atoms(p.ret):
+                if is_app(w, ('copy', 'cast')) and w[2] and w[2][0] == B:
+                    B = Poly.atom(w)
+            ops = []
+            for seq in za[2]:
+                sa = seq.single_atom() if isinstance(seq, Poly) else None
+                if sa is None or sa[0] != 'idx' or not isinstance(sa[2], Slice):
+                    ops = None
+                    break
+                ops.append(sa[2])
+
+            def count_ok(method, f, x, ops=ops):
+                # every zipped slice has the same stride and stops so that all have the same length:
+                # an operand starting at offset o stops at o - M (M = largest offset)
+                if ops is None:
+                    return False
+                stride = 1 if method == 'trapz' else 2
+                M = 1 if method == 'trapz' else 2
+                for sl in ops:
+                    o = 0 if sl.lo == NONE else sl.lo.const_value()
+                    st = 1 if sl.step == NONE else sl.step.const_value()
+                    hi = 0 if sl.hi == NONE else sl.hi.const_value()
+                    if o is None or st != stride or hi is None or not (0 <= o <= M) or hi != o - M:
+                        return False
+                return True
+            return B, term_j, count_ok
+    return None
 
 
 def _selection_of_self(v, name):
